@@ -441,6 +441,8 @@ def _big_dims(rng, size_class):
         if rng.random() < 0.6:
             return [rng.choice(ROUND_DIMS_4M), rng.choice(ROUND_DIMS_4M)]
         return [rng.randint(2050, 2300), rng.randint(2050, 2300)]
+    if size_class == "16M":             # above 2^24
+        return [rng.randint(4100, 4300), rng.randint(4100, 4300)]
     if size_class == "long":            # one axis beyond 2^15 (sometimes 2^16)
         d = [rng.randint(40, 72), rng.choice([32768 + rng.randint(8, 3000), 40000, 65536 + rng.randint(8, 3000)])]
         return d if rng.random() < 0.5 else d[::-1]
@@ -482,7 +484,7 @@ def _big_recipe(rng, shape, dtype, kw, nonzero=True, allow_noise=True, stripes_o
         kinds = [k for k in kinds if k != "noise"]
     kind = rng.choice(kinds)
     if kind == "ramp":
-        slope = [rng.choice([0, 2, 3, 4]) if n <= 4000 else 0 for n in (H, W)]
+        slope = [rng.choice([0, 2, 3, 4]) if n <= 8000 else 0 for n in (H, W)]
         if not any(slope):
             slope[0 if H <= W else 1] = rng.choice([2, 3, 4])
         bg = dict(kind="ramp", base=rng.choice([50, 200, 1000]), slope=slope)
@@ -534,16 +536,18 @@ def _big_recipe(rng, shape, dtype, kw, nonzero=True, allow_noise=True, stripes_o
                 blobs=blobs, nonzero=nonzero, flip=[rng.random() < 0.3, rng.random() < 0.3])
 
 
-def gen_transpose_big(rng, i):
+def gen_transpose_big(rng, i, thorough=False):
     """transposition clause on frames above 1 Mpx / 4 Mpx, on frames with one very long axis and (as
     a control below every size switch) on mid-sized frames: every pixel non-zero, line-periodic
     structure along one axis, many blobs of all-different amplitudes"""
     size_class = ["1M", "1M", "1M", "4M", "1M", "long", "1M", "mid"][i % 8]
+    if thorough and i % 32 == 11:
+        size_class = "16M"              # above 2^24 pixels
     shape = _big_dims(rng, size_class)
     dtype = rng.choice(["uint16", "uint16", "uint8"])
     kw = _big_params(rng)
     kw["preprocess"] = False
-    rc = _big_recipe(rng, shape, dtype, kw, nonzero=True, allow_noise=size_class != "4M")
+    rc = _big_recipe(rng, shape, dtype, kw, nonzero=True, allow_noise=size_class not in ("4M", "16M"))
     return dict(stream="transpose", big=size_class, kind="big-" + rc["bg"]["kind"], dtype=dtype,
                 shape=shape, recipe=rc, perm=[1, 0], view=rng.random() < 0.3, kw=kw)
 
@@ -687,10 +691,10 @@ def gen_cases(ctx):
     nt = ctx.n(400, 5000)
     ng = ctx.n(500, 8000)
     # image size as an input dimension (few: each costs up to seconds)
-    nsl = ctx.n(24, 160)        # shift, one very long axis
-    nsa = ctx.n(9, 60)          # shift, canvas above 1 Mpx / 4 Mpx
-    ntb = ctx.n(40, 240)        # transpose, frames above 1 Mpx / 4 Mpx / long / mid
-    nbb = ctx.n(4, 24)          # batch, one big frame among small ones
+    nsl = ctx.n(24, 400)        # shift, one very long axis
+    nsa = ctx.n(9, 120)         # shift, canvas above 1 Mpx / 4 Mpx
+    ntb = ctx.n(40, 600)        # transpose, frames above 1 Mpx / 4 Mpx (thorough: 16 Mpx) / long / mid
+    nbb = ctx.n(4, 60)          # batch, one big frame among small ones
     # interleave so that the slow batch cases are spread over the pool
     for i in range(max(ns, nt, ng)):
         if i < nb:
@@ -702,7 +706,7 @@ def gen_cases(ctx):
         if i < nsa:
             yield gen_shift_bigarea(ctx.rng("shift-bigarea", i), i)
         if i < ntb:
-            yield gen_transpose_big(ctx.rng("transpose-big", i), i)
+            yield gen_transpose_big(ctx.rng("transpose-big", i), i, thorough=ctx.thorough)
         if i < ns:
             yield gen_shift(ctx.rng("shift", i), i)
         if i < nt:
